@@ -498,10 +498,60 @@ func init() {
 			}},
 		"os.Exit": {"exit", "os.Exit terminates the process with the given status",
 			func(e *Exec, fr *frame, st *State, ci ssa.CallInstruction, args []SV, rt types.Type) SV {
+				st.exited = true
 				return SV{T: rt}
+			}},
+		"flag.StringVar": {"flag", "flag.StringVar registers a string flag: after flag.Parse the variable holds an arbitrary string", flagVarModel},
+		"flag.BoolVar":   {"flag", "flag.BoolVar registers a bool flag: after flag.Parse the variable holds an arbitrary bool", flagVarModel},
+		"flag.Bool": {"flag", "flag.Bool returns a fresh pointer whose target holds an arbitrary bool after flag.Parse",
+			func(e *Exec, fr *frame, st *State, ci ssa.CallInstruction, args []SV, rt types.Type) SV {
+				r := e.allocRef(st)
+				a := &Addr{Kind: AObj, Class: "bool", Ref: r, T: types.Typ[types.Bool]}
+				e.store(st, a, e.freshSV("flag", types.Typ[types.Bool]))
+				return scalar(rt, r)
+			}},
+		"flag.Parse": {"flag", "flag.Parse reads os.Args only",
+			func(e *Exec, fr *frame, st *State, ci ssa.CallInstruction, args []SV, rt types.Type) SV { return SV{T: rt} }},
+		"flag.Args": {"flag", "flag.Args returns the non-flag arguments",
+			func(e *Exec, fr *frame, st *State, ci ssa.CallInstruction, args []SV, rt types.Type) SV {
+				res := e.freshSV("flagargs", rt)
+				e.wfAssume(st, res)
+				return res
+			}},
+		"flag.PrintDefaults": {"stdout", "flag.PrintDefaults writes the flag help to the flag output (stderr by default)",
+			func(e *Exec, fr *frame, st *State, ci ssa.CallInstruction, args []SV, rt types.Type) SV { return SV{T: rt} }},
+		"fmt.Println": {"stdout", "fmt.Println writes to standard output",
+			func(e *Exec, fr *frame, st *State, ci ssa.CallInstruction, args []SV, rt types.Type) SV { return e.freshSV("println", rt) }},
+		"fmt.Printf": {"stdout", "fmt.Printf writes to standard output",
+			func(e *Exec, fr *frame, st *State, ci ssa.CallInstruction, args []SV, rt types.Type) SV { return e.freshSV("printf", rt) }},
+		"fmt.Fprintln": {"io-write", "fmt.Fprintln writes its operands to the given writer only",
+			func(e *Exec, fr *frame, st *State, ci ssa.CallInstruction, args []SV, rt types.Type) SV {
+				// expose the first operand for contracts
+				va := args[1]
+				if et, ok := va.T.Underlying().(*types.Slice); ok {
+					if n, ok := litInt(va.L[2]); ok && n >= 1 {
+						cell := e.load(st, &Addr{Kind: AElem, Class: typeKey(et.Elem()), Ref: va.L[0], Idx: CellIdx(va.L[1], IntLit(0)), T: et.Elem()})
+						st.events[len(st.events)-1].SVs = append(st.events[len(st.events)-1].SVs, cell)
+					}
+				}
+				return e.freshSV("fprintln", rt)
+			}},
+		"strings.NewReplacer": {"alloc", "strings.NewReplacer returns a fresh non-nil replacer",
+			func(e *Exec, fr *frame, st *State, ci ssa.CallInstruction, args []SV, rt types.Type) SV {
+				return scalar(rt, e.allocRef(st))
 			}},
 		"sort.Slice": {"pure", "sort.Slice permutes the slice so that it is sorted by less (permutation with inverse; A-os)", sortSliceModel},
 	}
+}
+
+func flagVarModel(e *Exec, fr *frame, st *State, ci ssa.CallInstruction, args []SV, rt types.Type) SV {
+	a := e.addrOf(st, args[0], nil, "", nil)
+	if a == nil {
+		e.abort(st, "flag variable target is not an address")
+		return SV{T: rt}
+	}
+	e.store(st, a, e.freshSV("flag", a.T))
+	return SV{T: rt}
 }
 
 func (e *Exec) tagOfName(key string) Term {
